@@ -7,7 +7,8 @@
 //
 // One output line per input line.
 //   case <id>                 -> "case <id>"
-//   tss | tsd | tsw <N> <min> -> "ok"                 fresh output of that schema
+//   tss | tsd | tsw <N> <min> | tsl <n> -> "ok"       fresh output of that schema (tsl: fixed TSL<TS<Int>, n>)
+//   lset <t> <i> <v>          -> "ok"                 write child i of the fixed TSL through its own mutation view
 //   add <t> <k> | rem <t> <k> -> "1"|"0"              TSSDataMutationView::add / remove  (changed?)
 //   clear <t> | touch <t>     -> "ok"                 (TSS and TSD)
 //   set <t> <k> <v>           -> "ok"                 TSDDataMutationView::set
@@ -37,7 +38,7 @@ using namespace hgv;
 
 namespace
 {
-    enum class Kind { None, TSS, TSD, TSW };
+    enum class Kind { None, TSS, TSD, TSW, TSL };
 
     Int as_int(const ValueView &v) { return v.checked_as<Int>(); }
 
@@ -180,6 +181,30 @@ namespace
         return out;
     }
 
+    std::string dump_tsl(TSOutput &output, DateTime t)
+    {
+        auto view = output.view(t);
+        auto list = view.as_list();
+        std::string out = "lmt=" + std::to_string(us(view.last_modified_time())) + " mod=" + std::to_string(view.modified()) +
+                          " valid=" + std::to_string(view.valid()) + " allvalid=" + std::to_string(view.all_valid()) +
+                          " n=" + std::to_string(list.size());
+        std::vector<std::string> valid_items, modified_items, all_values;
+        for (const auto [index, child] : list.items())
+        {
+            all_values.push_back(std::to_string(as_int(child.value())));
+            if (child.valid()) { valid_items.push_back(std::to_string(index) + ":" + std::to_string(as_int(child.value()))); }
+        }
+        for (const auto [index, child] : list.modified_items())
+        {
+            modified_items.push_back(std::to_string(index) + ":" + std::to_string(as_int(child.value())));
+        }
+        out += " v=" + join(std::move(valid_items)) + " vv=" + join(std::move(all_values), false) + " m=" + join(std::move(modified_items));
+        const auto delta = view.delta_value();
+        if (!delta.has_value()) { out += " d=none"; }
+        else { out += " d=" + map_value(delta); }
+        return out;
+    }
+
     template <typename SetLike>
     std::string slot_states(const SetLike &set)
     {
@@ -261,6 +286,26 @@ int main()
                 const auto *meta = registry.tsw(int_meta, static_cast<std::size_t>(period), static_cast<std::size_t>(min_period));
                 output = std::make_unique<TSOutput>(*meta);
                 kind   = Kind::TSW;
+                std::cout << "ok\n";
+            }
+            else if (op == "tsl" && w.size() == 2)
+            {
+                const auto size = nat(w[1]);
+                if (size == 0 || size > 64) { throw BadOp{}; }
+                output = std::make_unique<TSOutput>(*registry.tsl(ts_int, static_cast<std::size_t>(size)));
+                kind   = Kind::TSL;
+                std::cout << "ok\n";
+            }
+            else if (op == "lset" && need(Kind::TSL, 3))
+            {
+                const auto t     = dt(nat(w[1]));
+                const auto index = static_cast<std::size_t>(nat(w[2]));
+                Value      value{Int{integer(w[3])}};
+                auto       view  = output->view(t);
+                auto       list  = view.as_list();
+                auto       child = list.at(index);
+                auto       mutation = child.begin_mutation(t);
+                static_cast<void>(mutation.copy_value_from(value.view()));
                 std::cout << "ok\n";
             }
             else if ((op == "add" || op == "rem") && need(Kind::TSS, 2))
@@ -354,7 +399,10 @@ int main()
             else if (op == "dump" && w.size() == 2 && output != nullptr)
             {
                 const auto t = dt(nat(w[1]));
-                std::cout << (kind == Kind::TSS ? dump_tss(*output, t) : kind == Kind::TSD ? dump_tsd(*output, t) : dump_tsw(*output, t))
+                std::cout << (kind == Kind::TSS   ? dump_tss(*output, t)
+                              : kind == Kind::TSD ? dump_tsd(*output, t)
+                              : kind == Kind::TSL ? dump_tsl(*output, t)
+                                                  : dump_tsw(*output, t))
                           << "\n";
             }
             else if (op == "slots" && w.size() == 1 && output != nullptr) { std::cout << dump_slots(*output, kind) << "\n"; }
